@@ -12,6 +12,7 @@
 // See the License for the specific language governing permissions and
 // limitations under the License.
 
+#[cfg(not(foyer_verif))]
 use std::{
     any::Any,
     fmt::Debug,
@@ -22,6 +23,19 @@ use std::{
         atomic::{AtomicBool, Ordering},
     },
 };
+#[cfg(foyer_verif)]
+use std::{
+    any::Any,
+    fmt::Debug,
+    future::IntoFuture,
+    hash::Hash,
+    sync::{
+        Arc,
+        atomic::{Ordering},
+    },
+};
+#[cfg(foyer_verif)]
+use foyer_common::verif::sync::atomic::{AtomicBool};
 
 use equivalent::Equivalent;
 use foyer_common::{
